@@ -10,7 +10,7 @@
 (* Printed per event: the failing layout clauses, the reference reading of   *)
 (* the text, and Norm(E, P, m) for P = E and P = OMNI.                       *)
 (***************************************************************************)
-EXTENDS PvlLoader, PvlNorm, Json, IOUtils
+EXTENDS PvlWriter, Json, IOUtils
 Events == JsonDeserialize(IOEnv.TRACE_FILE)
 VARIABLES i
 Init == i \in 1..Len(Events)
@@ -126,11 +126,15 @@ Fails(e) ==
      \o F("statement-delimiters", \A k \in 1..Len(st) : st[k].kind # "END" => (st[k].semi <=> (cfg.delim /\ d \notin {"ODL", "PDS3"})))
      \o F("odl-parameter-names", d \in {"ODL", "PDS3"} => \A k \in 1..Len(st) : st[k].kind = "assign" => IsOdlName(st[k].name)))
 
+RECURSIVE Unprefix(_)      \* the event's module writes integers as "10:digits" (the reader's form); the writer wants the digits
+Unprefix(n) == N(n.t, IF n.t = "int" THEN SubSeq(n.s, 4, Len(n.s)) ELSE n.s, [k \in 1..Len(n.xs) |-> Unprefix(n.xs[k])])
 (* what the str leaves of the module look like to the dialect's classifier (signature features for findings) *)
 RECURSIVE StrClasses(_, _)
 StrClasses(d, n) == (IF n.t = "str" THEN {Classify(d, n.s).c} ELSE {}) \cup UNION { StrClasses(d, n.xs[k]) : k \in 1..Len(n.xs) }
 Verdict == PrintT(ToJson(
-    IF E.refused THEN [i |-> i, fails |-> <<>>, o |-> [verdict |-> "refused"], norm |-> NoVal, normomni |-> NoVal, strs |-> {}]
+    IF E.refused THEN [i |-> i, fails |-> <<>>, o |-> [verdict |-> "refused"], norm |-> NoVal, normomni |-> NoVal, strs |-> {},
+                       w |-> IF E.dflt THEN Write(E.E, Unprefix(E.m)) ELSE <<>>]
     ELSE [i |-> i, fails |-> Fails(E), o |-> Load(E.E, E.text),
-          norm |-> NormModule(E.E, E.E, E.m), normomni |-> NormModule(E.E, "OMNI", E.m), strs |-> StrClasses(E.E, E.m)]))
+          norm |-> NormModule(E.E, E.E, E.m), normomni |-> NormModule(E.E, "OMNI", E.m), strs |-> StrClasses(E.E, E.m),
+          w |-> IF E.dflt THEN Write(E.E, Unprefix(E.m)) ELSE <<>>]))   \* the reference writer's text (binding diagnostic only)
 =============================================================================
